@@ -168,6 +168,9 @@ DIRECTED = [
     # a lock under the name of a stored key, both instances contending twice
     [("request", 2, "da"), ("request", 1, "da", True), ("release", 2, "da"), ("acquire", 1, "da"),
      ("request", 2, "da", True), ("abandon", 1, "da"), ("acquire", 2, "da")],
+    # the lock is held for longer than one lease after the Lock call (and its context) ended, a second instance waiting for it all the time
+    [("request", 1, "L", False, True), ("request", 2, "L", True, True), ("wait", 900), ("release", 1, "L"), ("acquire", 2, "L"), ("wait", 1300),
+     ("request", 1, "L", True, True), ("release", 2, "L"), ("acquire", 1, "L"), ("release", 1, "L")],
 ]
 
 
@@ -237,7 +240,8 @@ def locks(ck, binary, behaviours, backend="node"):
 
 
 def _steps(b):
-    return [{"a": s[0], "i": s[1], "n": s[2], "busy": (len(s) > 3 and s[3])} for s in b]
+    return [{"a": "wait", "i": 0, "n": "", "ms": s[1]} if s[0] == "wait" else
+            {"a": s[0], "i": s[1], "n": s[2], "busy": bool(len(s) > 3 and s[3]), "cc": bool(len(s) > 4 and s[4])} for s in b]
 
 
 def run(ck):
@@ -297,4 +301,9 @@ def run(ck):
             cands.append(x["steps"])
     cands.sort(key=lambda b: -(sum(1 for s in b if s["busy"]) + sum(1 for s in b if s["a"] == "abandon")))
     beh += cands[:(60 if ck.thorough else 9)]
+    for j, b in enumerate(beh):          # every other seeded behaviour: the context of each Lock call ends when the call returns
+        if j >= len(DIRECTED) and j % 2 == 0:
+            for st in b:
+                if st["a"] == "request":
+                    st["cc"] = True
     locks(ck, binary, beh)
